@@ -503,11 +503,19 @@ static int do_handshake(gctx_t *g)
             continue;
         }
         e0 = env_entropy_bytes;
+        /* once both sides are complete the records still in flight are retransmissions: deliver them, but do not answer
+           REQUEST_SEND with yet another retransmission (each duplicate of a final flight makes the receiver resend its own
+           final flight, which is a duplicate for the other side: an endless ping-pong, recorded under C16) */
+        g->w.no_autocollect = world_is_complete(&g->w, 0) && world_is_complete(&g->w, 1);
         progressed = world_step(&g->w, &turn);
+        g->w.no_autocollect = 0;
         after_action(g, e0);
         if (progressed)
         {
-            step++;
+            if (++step > 400)
+            {
+                break; /* explicit horizon */
+            }
             continue;
         }
         if (world_is_complete(&g->w, 0) && world_is_complete(&g->w, 1))
